@@ -934,7 +934,11 @@ func (e *exprEnv) pureCall(fn *types.Func, recv *cval, argX []ast.Expr) (cval, e
 	}
 	rt := sig.Results().At(0).Type()
 	key := FuncObjKey(fn)
-	if _, isI := sig.Recv().Type().Underlying().(*types.Interface); sig.Recv() != nil && isI {
+	isIfaceRecv := false
+	if sig.Recv() != nil {
+		_, isIfaceRecv = sig.Recv().Type().Underlying().(*types.Interface)
+	}
+	if isIfaceRecv {
 		// interface method: only usable when declared pure
 		if fc, ok := t.DB.Funcs[key]; ok && fc.Pure {
 			argSorts[0] = "Iface"
@@ -959,12 +963,29 @@ func (e *exprEnv) pureCall(fn *types.Func, recv *cval, argX []ast.Expr) (cval, e
 		return cval{}, fmt.Errorf("%s cannot be evaluated in a contract (no body, loop, or not pure)", key)
 	}
 	sub := t.newFrame(sfn, false, e.f.depth+1)
+	sub.silent = true
 	if sub.depth > 6 {
 		return cval{}, fmt.Errorf("%s: evaluation too deep", key)
+	}
+	bound := false
+	for _, a := range argTerms {
+		if strings.Contains(a, "?") {
+			bound = true
+		}
+	}
+	fresh0 := B.freshInTermMode
+	if bound {
+		B.termMode++
 	}
 	inlineStack = append(inlineStack, sfn)
 	err := sub.run(args, e.st.clone(), "true")
 	inlineStack = inlineStack[:len(inlineStack)-1]
+	if bound {
+		B.termMode--
+		if B.freshInTermMode != fresh0 {
+			return cval{}, fmt.Errorf("%s: result is not a function of its arguments, cannot be used under a quantifier", key)
+		}
+	}
 	if err != nil {
 		return cval{}, fmt.Errorf("%s: %v", key, err)
 	}
@@ -974,6 +995,9 @@ func (e *exprEnv) pureCall(fn *types.Func, recv *cval, argX []ast.Expr) (cval, e
 	out := sub.rets[len(sub.rets)-1].vals[0].term
 	for j := len(sub.rets) - 2; j >= 0; j-- {
 		out = ite(sub.rets[j].cond, sub.rets[j].vals[0].term, out)
+	}
+	if bound {
+		return cval{term: out, typ: rt}, nil
 	}
 	return cval{term: B.define("pure:"+fn.Name(), B.sortOf(rt), out), typ: rt}, nil
 }
@@ -1182,6 +1206,7 @@ func (e *exprEnv) applyModifies(m string, st *State) error {
 func (t *Trans) modifiesArrays(fc *FuncContract, plan callPlan, m string) (map[string]arrDesc, error) {
 	// evaluate in a throw-away environment with fresh parameter symbols
 	f := t.newFrame(t.topFn(), false, 0)
+	f.silent = true
 	f.entry = t.entry
 	env := f.baseEnvNoParams(t.entry.clone())
 	if pk := t.P.ByPath[fc.PkgPath]; pk != nil {
